@@ -37,6 +37,19 @@ func c12Run(c *fw.Ctx, idx int, sc c12Scenario) {
 		}
 		nodes = append(nodes, n)
 	}
+	// in 3-node scenarios whose connections avoid node 3, that node is a bystander which receives all
+	// gossip of the scenario only at the end and in REVERSE order (removals before the creations they remove)
+	bystander := -1
+	if sc.nNodes == 3 {
+		used := map[int]bool{}
+		for _, p := range sc.places {
+			used[p] = true
+		}
+		if !used[2] && idx%3 != 0 {
+			bystander = 2
+			cl.HoldGossipFor(3)
+		}
+	}
 	clientID := fmt.Sprintf("dup-%d", idx)
 	desc := fmt.Sprintf("connections of %q on nodes %v, displaced sessions do %v (%v)", clientID, addOne(sc.places), sc.oldEvent, sc.when)
 	wit := func(extra map[string]interface{}) map[string]interface{} {
@@ -49,7 +62,7 @@ func c12Run(c *fw.Ctx, idx int, sc c12Scenario) {
 	conns := []*kit.Client{}
 	sessIDs := []string{}
 	// a witness that publishes at the end
-	wnode := nodes[len(nodes)-1]
+	wnode := nodes[0]
 	witness, err := wnode.MustConnect(kit.ConnectOpts{ClientID: fmt.Sprintf("witness-%d", idx), KeepAlive: 600, Clean: true})
 	if err != nil {
 		c.Inconclusive("connect: " + err.Error())
@@ -195,6 +208,11 @@ func c12Run(c *fw.Ctx, idx int, sc c12Scenario) {
 		}
 	}
 	cl.Quiesce()
+	if bystander >= 0 {
+		n := cl.ReleaseGossipReversed(3)
+		c.Observe("bystander_reversed_gossip_messages", n)
+		cl.Quiesce()
+	}
 	newest := sessIDs[len(sessIDs)-1]
 	// every node resolves the identifier to the newest session
 	for _, n := range nodes {
@@ -333,7 +351,7 @@ func addOne(a []int) []int {
 }
 
 func runC12(c *fw.Ctx) {
-	c.Rule = "pairs and chains of 3 connections sharing a client identifier on 1-3 nodes (same node / different nodes), gossip delivered by an explicit pump; each displaced session performs one event (PINGREQ, SUBSCRIBE, DISCONNECT, close, nothing) placed before the takeover's gossip, after it, BETWEEN 'old record deleted' and 'new record created' in the accepting node's setup (hook H2, the accepting goroutine is held there), or with its own teardown held between lookup and delete (hook H2) while the gossip is delivered. Oracle: every CONNECT is accepted; after quiescence every node resolves the identifier to the newest session, lists exactly its subscription and none of the displaced ones; the displaced session's next PINGREQ gets no PINGRESP and its connection is closed; a publish to the newest session's filter reaches it and not the others. Also: the newer session leaves (DISCONNECT / connection loss) before the displaced one's keep-alive exchange, which must still end the displaced one. Quick: the full grid of pairs (placement x event x timing) and seeded chains; thorough: more chains. distinct = scenario parameters; non-trivial = all"
+	c.Rule = "pairs and chains of 3 connections sharing a client identifier on 1-3 nodes (same node / different nodes), gossip delivered by an explicit pump; each displaced session performs one event (PINGREQ, SUBSCRIBE, DISCONNECT, close, nothing) placed before the takeover's gossip, after it, BETWEEN 'old record deleted' and 'new record created' in the accepting node's setup (hook H2, the accepting goroutine is held there), or with its own teardown held between lookup and delete (hook H2) while the gossip is delivered. In 3-node scenarios that leave node 3 unused, that node receives the whole scenario's gossip at the end in reverse order. Oracle: every CONNECT is accepted; after quiescence every node resolves the identifier to the newest session, lists exactly its subscription and none of the displaced ones; the displaced session's next PINGREQ gets no PINGRESP and its connection is closed; a publish to the newest session's filter reaches it and not the others. Also: the newer session leaves (DISCONNECT / connection loss) before the displaced one's keep-alive exchange, which must still end the displaced one. Quick: the full grid of pairs (placement x event x timing) and seeded chains; thorough: more chains. distinct = scenario parameters; non-trivial = all"
 	c.Assume("the accepting node has learned of the earlier session (gossip barrier before each CONNECT), as the property requires")
 	events := []string{"ping", "subscribe", "disconnect", "close", "nothing"}
 	whens := []string{"before-gossip", "after-gossip", "at-setup-point", "at-shutdown-point"}
@@ -341,7 +359,7 @@ func runC12(c *fw.Ctx) {
 	placements := []struct {
 		n int
 		p []int
-	}{{1, []int{0, 0}}, {2, []int{0, 1}}, {2, []int{1, 0}}, {3, []int{0, 2}}}
+	}{{1, []int{0, 0}}, {2, []int{0, 1}}, {2, []int{1, 0}}, {3, []int{0, 2}}, {3, []int{0, 1}}, {3, []int{1, 0}}}
 	for _, pl := range placements {
 		for _, ev := range events {
 			for _, wh := range whens {
